@@ -345,6 +345,12 @@ void ICACHE_FLASH_ATTR supla_esp_parse_proto_var(TrivialHttpParserVars *pVars,
   }
 }
 
+#ifdef SUPLA_VERIF_HOOKS
+/* Observation hooks for the /verif harness (no effect on behaviour). */
+void supla_verif_hook_form_var(int var, const char *buff, int buff_size,
+                               int matched);
+#endif /*SUPLA_VERIF_HOOKS*/
+
 void ICACHE_FLASH_ATTR supla_esp_parse_vars(TrivialHttpParserVars *pVars,
                                             char *pdata, unsigned short len,
                                             SuplaEspCfg *cfg, char *reboot) {
@@ -806,6 +812,10 @@ void ICACHE_FLASH_ATTR supla_esp_parse_vars(TrivialHttpParserVars *pVars,
         else
           pVars->pbuff[pVars->buff_size - 1] = 0;
 
+#ifdef SUPLA_VERIF_HOOKS
+        supla_verif_hook_form_var(pVars->current_var, pVars->pbuff,
+                                  pVars->buff_size, pVars->matched);
+#endif /*SUPLA_VERIF_HOOKS*/
         if (pVars->current_var == VAR_LID) {
           cfg->LocationID = cfg_str2int(pVars->intval);
 
